@@ -165,6 +165,17 @@ class Check:
         # theorems that failed to elaborate show up as errors
         for m in re.finditer(r"error: [^\n]*", out):
             self.broken.append("audit: " + m.group(0)[:300])
+        if self.tier == "thorough":
+            # independent re-check of the compiled proofs by the toolchain's external checker
+            mod = "OlVerif.Props." + self.pid
+            try:
+                q = subprocess.run(["lake", "env", "leanchecker", mod], cwd=LEAN, capture_output=True, text=True, timeout=1800)
+                if q.returncode != 0:
+                    self.broken.append(f"leanchecker rejects {mod}: " + (q.stdout + q.stderr)[-600:])
+                else:
+                    self.stats["leanchecker"] = "accepted " + mod
+            except (OSError, subprocess.TimeoutExpired) as e:
+                self.notes.append(f"leanchecker could not be run on {mod}: {e}")
         return thms
 
     # ------------------------------------------------------------------ reporting
